@@ -20,6 +20,9 @@ def scripts(name):
         'threecallers': [[('cmd', b'ca')], [('cmd', b'cb')], [('cmd', b'cc')]],
         'mixed': [[('cmd', b'ca'), ('list', [b'lb', b'fc'])], [('cmd', b'fd')]],
         'none': [[]],
+        'partialout': [[('cmd', b'pa'), ('cmd', b'cb')]],
+        'partiallist': [[('list', [b'la', b'pb', b'lc'])], [('cmd', b'cc')]],
+        'firstpartial': [[('list', [b'pa', b'lb'])]],
     }[name]
 
 def instances_for(prop, tier, seed):
@@ -36,9 +39,14 @@ def instances_for(prop, tier, seed):
         add(script='twocallers', k=k, budget={'change': 1})
         add(script='list', k=k, budget={'tick': 1})
         add(script='mixed', k=k, budget={'tick': 1})
+        add(script='partialout', k=k, budget={'tick': 1})
+        add(script='partiallist', k=k, budget={})
+        add(script='firstpartial', k=k - 1, budget={})
         add(script='one', k=k, budget={'change': 2, 'partial': 1})
         # from the state right after a reply (inside the re-idle window)
         add(script='two', prefix='after_reply', k=k, budget={'tick': 1, 'change': 1})
+        add(script='two', prefix='after_reply', k=k, budget={'tick': 1, 'slowwrite': 1})
+        add(script='listok', k=k, budget={'slowwrite': 1})
         add(script='twocallers', prefix='after_reply', k=k, budget={'tick': 1, 'cancel': 1})
         # cancellation
         add(script='twocallers', k=k, budget={'cancel': 1})
@@ -58,6 +66,8 @@ def instances_for(prop, tier, seed):
             add(script='one', prefix='after_reply', k=k, budget={'faults': [f], 'tick': 1})
         add(script='one', prefix='inflight_partial', k=k, budget={'faults': ['eof']})
         add(script='list', prefix='inflight_partial', k=k, budget={'faults': ['eof']})
+        add(script='list', prefix='inflight_partial2', k=k, budget={'faults': ['eof']})
+        add(script='listok', prefix='inflight_partial2', k=k, budget={'faults': ['eof']})
         add(script='one', k=k, budget={'dropclient': 1})
         add(script='none', k=k, budget={'dropclient': 1, 'change': 1})
         add(script='one', prefix='after_reply', k=k, budget={'dropclient': 1, 'tick': 1})
@@ -82,7 +92,7 @@ def run_scenario(I, P, pl):
     # prefix: reach a loop state deterministically
     S.poll_loop()                       # writes the initial idle
     pre = pl['prefix']
-    if pre in ('after_reply', 'inflight', 'inflight_partial'):
+    if pre in ('after_reply', 'inflight', 'inflight_partial', 'inflight_partial2'):
         S.issue(0)
         S.poll_loop()                   # noidle written
         S.deliver()                     # OK of the noidle
@@ -93,6 +103,9 @@ def run_scenario(I, P, pl):
             S.poll_loop(); S.poll_caller(0)
         elif pre == 'inflight_partial':
             S.deliver()                 # first line of the reply only
+            S.poll_loop()
+        elif pre == 'inflight_partial2':
+            S.deliver(); S.deliver()    # the first frame of a list reply and its list_OK
             S.poll_loop()
     S.free_steps(pl['k'], budget)
     if any(f.startswith('fault') for f in S.flags) or not S.clients:
@@ -199,6 +212,10 @@ def judge_c08(obs):
                 want = expected_txt(req)
                 if json.dumps(out) != json.dumps(want):
                     return 'caller %d: request %s resolved with %s, the server answered %s' % (ci, req, out, want)
+    if 'eof_inside_reply' in obs['flags']:
+        outs = [out for c in obs['callers'] for _, out in c['results']]
+        if not any(o[0] == 'protocol' for o in outs) and 'closed' not in obs['events']:
+            return 'the stream ended inside a reply but no caller got a protocol error and no closing event was emitted (results %s)' % outs
     if obs['loop_done']:
         if obs['is_closed'] is False:
             return 'the connection ended but is_connection_closed() is false'
@@ -262,7 +279,7 @@ def run_for(prop, pl):
             bad = JUDGES[prop](obs)
             res.cls('schedule ' + ('with request' if any(c['results'] for c in obs['callers']) else 'without request'), nontrivial=len(obs['steps']) > 3)
             if bad:
-                rec = {'scenario': pl, 'steps': obs['steps']}
+                rec = {'scenario': pl, 'steps': obs['steps'], 'flags': obs['flags']}
                 ks = [k for k in (classes_c04(obs) if prop == 'C04' else []) if k in known]
                 if ks:
                     res.known.setdefault(ks[0], dict(rec, what=bad))
@@ -507,6 +524,7 @@ def replay_for(prop, rec):
         if 'panic' in out:
             return True, 'native run panics: ' + unhex(out['panic'][0]).decode('utf-8', 'replace')[:100]
         obs = native_obs(out, inp['steps'])
+        obs['flags'] = sorted(set(obs['flags']) | set(inp.get('flags', [])))
         for c in obs['callers']:
             c['results'] = [(r, norm(o)) for r, o in c['results']]
         bad = JUDGES[prop](obs)
